@@ -444,14 +444,19 @@ pub fn history<S: Shape>(m: &mut Monitor, rng: &mut Rng, ops: usize) {
                                        "map_unchanged_after_panic": unchanged, "last_ops": trace.clone()}),
                             );
                             if !unchanged {
-                                fail!("insert:changed_map_while_failing", "bytes differ after the panic");
+                                m.violation(
+                                    "C34:insert:changed_map_while_failing",
+                                    json!({"shape": S::NAME, "capacity": S::CAP, "detail": "bytes differ after the panic", "last_ops": trace.clone()}),
+                                );
                             }
                         } else {
-                            fail!("insert:panic", msg);
+                            m.violation(
+                                "C34:insert:panic",
+                                json!({"shape": S::NAME, "capacity": S::CAP, "detail": msg, "last_ops": trace.clone(), "len": model.len()}),
+                            );
                         }
                         // restore the snapshot (aborted operation) and go on
                         map = bytemuck::pod_read_unaligned(&before);
-                        aborted = false;
                     }
                     Ok(got) => {
                         if full && is_new {
